@@ -37,6 +37,7 @@ def check(ctx):
     from . import c06
 
     ctx.run(c06.r06_9, m)  # a component that was ordered must not look skipped to the caller
+    ctx.run(c06.r06_11, m)  # which components count as chain-shaped
     ctx.run(c06.r06_10, m)  # a chain must be recognised as one whatever its segments are called (else it is skipped)
     ctx.run(c06.r06_5, m)  # tags a skipped component carries from the input play no role
     ctx.not_decided.append("that the degree census recognises exactly the non-chain components (a graph-theoretic statement about biccs/dfs, see C15)")
